@@ -25,17 +25,25 @@ def run(ctx):
     for z in zs:
         el = xscorr.element(z)
         n = int(rng.choice(ns))
-        lo = float(10 ** rng.uniform(0, 2)); hi = lo * float(10 ** rng.uniform(0.5, 3))
-        arr = np.sort(10 ** rng.uniform(0, 5, int(rng.choice([1, 3, 4, 9]))))
+        lo = float(10 ** rng.uniform(-2, 2)); hi = lo * float(10 ** rng.uniform(0.5, 3))
+        arr = np.sort(10 ** rng.uniform(-1, 5, int(rng.choice([1, 3, 4, 9]))))
         w = float(10 ** rng.uniform(-0.3, 2))
         for fname, vec in (("eixs", lambda e: ebisim.eixs_vec(el, e)), ("rrxs", lambda e: ebisim.rrxs_vec(el, e)), ("drxs", lambda e: ebisim.drxs_vec(el, e, w))):
             for mode in ("none", "pair", "list"):
                 if fname == "drxs" and mode == "none" and (el.dr_e_res.size == 0 or el.dr_e_res.min() - 3 * w <= 0):
                     continue
                 ek = {"none": None, "pair": np.array([lo, hi]), "list": arr}[mode]
+                if fname == "drxs" and mode == "list" and el.dr_e_res.size:
+                    # caller's energies on, near and far outside the resonances (in units of sigma)
+                    sg = w / 2.35482
+                    er = float(rng.choice(el.dr_e_res)); top = float(el.dr_e_res.max()); bot = float(el.dr_e_res.min())
+                    arr2 = np.array([er, er + 3 * sg, top + 8 * sg, top + 15 * sg, top + 25 * sg, top + 36 * sg, bot - 12 * sg, bot - 30 * sg])
+                    arr2 = np.sort(arr2[arr2 > 0])
+                    if arr2.size > 2:
+                        ek = arr2
                 if fname == "drxs":
                     es, scan = ebisim.drxs_energyscan(el, w, ek, n)
-                    model = {"none": lambda: D.floats(f"drsamp {z} {bits(w)} {n}"), "pair": lambda: D.floats(f"logspace {bits(lo)} {bits(hi)} {n}"), "list": lambda: arr}[mode]()
+                    model = {"none": lambda: D.floats(f"drsamp {z} {bits(w)} {n}"), "pair": lambda: D.floats(f"logspace {bits(lo)} {bits(hi)} {n}"), "list": lambda: np.asarray(ek, float)}[mode]()
                 else:
                     f = ebisim.eixs_energyscan if fname == "eixs" else ebisim.rrxs_energyscan
                     es, scan = f(el, ek, n)
@@ -49,7 +57,7 @@ def run(ctx):
                     continue
                 if scan.shape != (z + 1, es.size):
                     ctx.fail("correspondence", f"{fname}_energyscan(Z={z}) scan has shape {scan.shape}", inp=desc); continue
-                cols = [0, es.size - 1] + list(rng.integers(0, es.size, 3))
+                cols = list(range(es.size)) if es.size <= 12 else [0, es.size - 1] + list(rng.integers(0, es.size, 3))
                 for c in cols:
                     if not np.array_equal(scan[:, c], vec(float(es[c]))):
                         ctx.fail("correspondence", f"{fname}_energyscan(Z={z}, mode={mode}) column {c} is not the vector form at the returned energy {es[c]!r}", inp=dict(desc, col=int(c)))
@@ -90,8 +98,12 @@ def search(ctx):
     for z in zs:
         z = int(z); el = xscorr.element(z)
         e = float(10 ** rng.uniform(0.5, 5)); w = float(10 ** rng.uniform(-0.3, 2)); n = z + 1
-        for name, v, m, sub in (("eixs", ebisim.eixs_vec(el, e), ebisim.eixs_mat(el, e), -1), ("rrxs", ebisim.rrxs_vec(el, e), ebisim.rrxs_mat(el, e), 1),
-                                ("drxs", ebisim.drxs_vec(el, e, w), ebisim.drxs_mat(el, e, w), 1)):
+        trip = [("eixs", ebisim.eixs_vec(el, e), ebisim.eixs_mat(el, e), -1), ("rrxs", ebisim.rrxs_vec(el, e), ebisim.rrxs_mat(el, e), 1),
+                ("drxs", ebisim.drxs_vec(el, e, w), ebisim.drxs_mat(el, e, w), 1)]
+        if el.dr_e_res.size:
+            for row in {int(np.argmin(el.dr_cs)), int(np.argmax(el.dr_cs))}:
+                er = float(el.dr_e_res[row]); trip.append(("drxs", ebisim.drxs_vec(el, er, w), ebisim.drxs_mat(el, er, w), 1))
+        for name, v, m, sub in trip:
             exp = -np.diag(v) + (np.diag(v[:-1], -1) if sub < 0 else np.diag(v[1:], 1))
             if m.shape != (n, n) or not np.array_equal(m, exp):
                 add("mat_arrangement", f"{name}_mat(Z={z}, E={e}) is not minus the vector on the diagonal and the vector one row {'below' if sub<0 else 'above'}", {"Z": z, "E": e, "w": w})
@@ -100,11 +112,11 @@ def search(ctx):
         eb = el.e_bind[el.e_bind > 0]
         if not (es[0] <= eb.min() and eb.max() <= es[-1]) or np.any(np.diff(es) <= 0):
             add("default_grid_covers", f"default energy grid [{es[0]}, {es[-1]}] of Z={z} does not cover its binding energies [{eb.min()}, {eb.max()}]", {"Z": z})
-        lo, hi, k = float(10 ** rng.uniform(0, 2)), float(10 ** rng.uniform(3, 5)), int(rng.integers(2, 60))
-        es, scan = ebisim.rrxs_energyscan(el, np.array([lo, hi]), k)
+        lo, hi, k = float(10 ** rng.uniform(-2, 2)), float(10 ** rng.uniform(3, 5)), int(rng.integers(2, 60))
+        es, scan = (ebisim.rrxs_energyscan if z % 2 else ebisim.eixs_energyscan)(el, np.array([lo, hi]), k)
         r = np.diff(np.log10(es))
         if es.size != k or abs(es[0] - lo) > 1e-12 * lo or abs(es[-1] - hi) > 1e-12 * hi or np.any(r <= 0) or (k > 2 and np.ptp(r) > 1e-9 * r.mean()):
-            add("two_limits_logspaced", f"rrxs_energyscan(Z={z}, [{lo},{hi}], {k}) is not {k} log-spaced points between the limits", {"Z": z, "lo": lo, "hi": hi, "n": k})
+            add("two_limits_logspaced", f"{'rrxs' if z % 2 else 'eixs'}_energyscan(Z={z}, [{lo},{hi}], {k}) is not {k} log-spaced points between the limits (got {es[0]!r} .. {es[-1]!r})", {"Z": z, "lo": lo, "hi": hi, "n": k})
         arr = np.sort(10 ** rng.uniform(0, 5, 5))
         es, scan = ebisim.eixs_energyscan(el, arr, 7)
         if not np.array_equal(es, arr) or not all(np.array_equal(scan[:, c], ebisim.eixs_vec(el, float(arr[c]))) for c in range(arr.size)):
